@@ -1020,7 +1020,7 @@ def fmt_trace(trace):
 TIMING_OPS = ["exec", "iter", "setdur", "on_enable", ("engage", None, False), ("done",), ("on_disable",)]
 
 
-def run_check(pid, tier, seed, shapes, nops, maxdev, bfs_depth, rule_extra="", probe_every=0, sig_names=(), timing_depth=0, light_names=(), light_nops=3, light_bfs=5):
+def run_check(pid, tier, seed, shapes, nops, maxdev, bfs_depth, rule_extra="", probe_every=0, sig_names=(), timing_depth=0, light_names=(), light_nops=3, light_bfs=3, light_timing=8):
     t0 = time.time()
     items = []
     bfs = []
@@ -1035,14 +1035,22 @@ def run_check(pid, tier, seed, shapes, nops, maxdev, bfs_depth, rule_extra="", p
             items.append(dict(shape=sh, nops=nops - less, maxdev=md, roots=[(r,)], props=[pid], seed=seed))
         bfs.append((sh, (bfs_depth - 2 * less) if sh["name"] not in light else light_bfs))
     res = core.Result()
+    import sys as _sys
+
+    def progress(msg):
+        print(f"[{pid}] {time.time() - t0:7.1f}s {msg}", file=_sys.stderr, flush=True)
+
     with core.WorkerPool() as pool:
+        progress(f"flat DFS: {len(items)} work items over {len(shapes)} shapes")
         for d in pool.run("mc.sm_engine", "explore_shape", items, seed=seed, weight=lambda it: it["nops"]):
             res.merge(d)
+        progress(f"flat DFS done: {res.executions} executions; merged BFS")
         bfs_all(pool, res, bfs, pid, seed, probe_every)
+        progress(f"merged BFS done: {res.states} states, {res.transitions} transitions; timing BFS")
         if timing_depth:
-            tshapes = [(sh, timing_depth) for sh in shapes if any(st["kind"] == "timed" for st in sh["states"]) and sh["name"] not in sig_names]
+            tshapes = [(sh, timing_depth if sh["name"] not in light else light_timing) for sh in shapes if any(st["kind"] == "timed" for st in sh["states"]) and sh["name"] not in sig_names]
             bfs_all(pool, res, tshapes, pid, seed, 0, opset=TIMING_OPS, maxdev=0, label="timing_bfs")
-    res.bounds.update(flat_ops=nops, flat_deviation_bound=maxdev, bfs_depth=bfs_depth, shapes=len(shapes), tick="1/64 s", advances=list(ADVANCES), timing_bfs_depth=timing_depth, generated_family_shapes=len(light), family_flat_ops=light_nops if light else None, family_flat_deviation_bound=1 if light else None, family_bfs_depth=light_bfs if light else None)
+    res.bounds.update(flat_ops=nops, flat_deviation_bound=maxdev, bfs_depth=bfs_depth, shapes=len(shapes), tick="1/64 s", advances=list(ADVANCES), timing_bfs_depth=timing_depth, generated_family_shapes=len(light), family_flat_ops=light_nops if light else None, family_flat_deviation_bound=1 if light else None, family_bfs_depth=light_bfs if light else None, family_timing_bfs_depth=light_timing if light else None)
     rule = (
         "for each generated machine shape: every sequence of `flat_ops` external operations (engage variants, done, on_disable, "
         "duration-topic edits, execute after a clock advance of 0/1/2/3/long ticks) with at most `flat_deviation_bound` non-trivial in-state "
